@@ -193,6 +193,14 @@ pub open spec fn end_emits(d: BlockDecodeState, params: ChannelTransactionParame
 
 impl State {
 // the change algebra, under the contract proved in unit monitor_changes ([C14.forward.exact])
+// read-only queries of the state, with the contracts proved in unit monitor_changes - declared so that a scanner that consults
+// them is decided, not unknown
+//@fn vls-core/src/monitor.rs :: impl State :: is_our_output_swept mode=trusted
+    ensures r == abs_our_output_swept(st_abs(*self)),
+//@end
+//@fn vls-core/src/monitor.rs :: impl State :: is_closing_swept mode=trusted
+    ensures r == abs_closing_swept(st_abs(*self)),
+//@end
 //@fn vls-core/src/monitor.rs :: impl State :: apply_forward_change mode=trusted
     requires fwd_applicable(st_abs(*old(self)), ch_abs(change)),
     ensures st_abs(*final(self)) == fwd_abs(st_abs(*old(self)), ch_abs(change)), st_frame(*final(self), *old(self)),
